@@ -397,7 +397,7 @@ impl KotoVm {
 
         let old_frame_count = self.call_stack.len();
 
-        self.call_callable(
+        if let Err(error) = self.call_callable(
             CallInfo {
                 result_register: Some(result_register),
                 frame_base,
@@ -407,7 +407,12 @@ impl KotoVm {
                 packed_arg_count: 0,
             },
             function,
-        )?;
+        ) {
+            // The call failed before a frame was pushed (e.g. an external function returned an
+            // error, or the arguments didn't match), so discard the call's registers here.
+            self.truncate_registers(result_register);
+            return Err(error);
+        }
 
         let result = if self.call_stack.len() == old_frame_count {
             // If the call stack is the same size as before calling call_callable,
